@@ -172,7 +172,7 @@ class SeriesOps:
                 try:
                     r = self.I.call_merged(fn, [s.term], {}, node)
                     rt = to_term(r)
-                    return s.with_term(("mapf", fn.qualname.split(".")[-1].split("@")[0], rt) if not isinstance(fn.node, ast.Lambda) else rt)
+                    return s.with_term(rt)          # a named function and a lambda with the same body give the same column term
                 except RecursionError:
                     pass
             return s.with_term(("map", ("func", fn.qualname), s.term))
